@@ -382,6 +382,13 @@ class World(object):
                 # options may be manipulated directly; None = "not set"
                 o[self.rng.choice(['indent', 'mimetype', 'encoding',
                                    'line_endings', 'type'])] = None
+            elif r < 0.22:
+                # keys a parsed header carries (a tree assembled by hand
+                # from reader records has them): serialising such a tree
+                # may fail, but must not edit it
+                o[self.rng.choice(['length', 'length', 'format', 'version',
+                                   'x-custom', 'content', 'metadata'])] = \
+                    self.rng.choice([5, 0, 'v', None])
             elif r < 0.5:
                 o['encoding'] = self.rng.choice(['utf-8', 'latin-1',
                                                  'utf-16'])
@@ -504,9 +511,45 @@ def run_history(seed, length, obs):
     obs.case(('history', seed, length), nontrivial=len(touched) >= 3)
 
 
+def check_default_value_isolation(obs):
+    """Content-section classes take their initial content from the class
+    attribute ``default_value``. With a *nested* default (a subclass, as an
+    application would define one) two new sections must still not share
+    anything mutable with each other or with the class."""
+    from pydiffx.dom import objects
+    for name in ('DiffXMetaSection', 'DiffXPreambleSection',
+                 'DiffXFileDiffSection'):
+        base = getattr(objects, name, None)
+        if base is None or not hasattr(base, 'default_value'):
+            obs.count('default_value_hook_absent')
+            continue
+        default = {'vendor': {'tags': [], 'reviewers': {}}}
+        try:
+            sub = type('Vendor' + name, (base,),
+                       {'default_value': copy.deepcopy(default),
+                        'data_type': dict})
+            s1, s2 = sub(), sub()
+            if s1.content != default:
+                obs.count('default_value_hook_not_honoured')
+                continue
+        except Exception:
+            obs.count('default_value_subclass_not_constructible')
+            continue
+        obs.count('default_value_isolation_checked')
+        s1.content['vendor']['tags'].append('s1 only')
+        s1.content['vendor']['reviewers']['a'] = True
+        if s2.content != default or sub.default_value != default:
+            obs.violation('shared_mutable_state:nested_default_value',
+                          {'default_value_class': name},
+                          {'other_section': repr(s2.content),
+                           'class_default': repr(sub.default_value)})
+
+
 def run(ctx):
     obs = ctx.obs
     rng = ctx.rng
+    if ctx.index == 0:
+        check_default_value_isolation(obs)
     n = ctx.share(ctx.pick(1600, 50000))
     for k in range(n):
         seed = rng.randrange(1 << 40)
@@ -518,5 +561,7 @@ def run(ctx):
 
 
 def replay(case, obs):
+    if 'default_value_class' in case:
+        return check_default_value_isolation(obs)
     # histories are a pure function of their seed; replay the whole one
     run_history(case['seed'], max(case.get('n_ops', 100), 30) + 5, obs)
